@@ -74,6 +74,13 @@ func classify(a, b Schema) string {
 		if strings.Join(t.AutoIncCols, ",") != strings.Join(bt.AutoIncCols, ",") {
 			set["autoinc-change"] = true
 		}
+		for _, k1 := range t.Checks {
+			for _, k2 := range bt.Checks {
+				if mayWrap(k1.Expr) == mayWrap(k2.Expr) && k1.Name != k2.Name && (k1.Name == "" || k2.Name == "") {
+					set["check-name-change"] = true
+				}
+			}
+		}
 		for i, k1 := range t.Checks {
 			for j, k2 := range t.Checks {
 				if i < j && mayWrap(k1.Expr) == mayWrap(k2.Expr) {
@@ -213,6 +220,17 @@ func (g *G) witness(class string) (Schema, Schema, bool) {
 				t.AutoIncCols = nil
 				ok = true
 			}
+		case "check-name-change":
+			at := a.table(t.Name)
+			for _, c := range at.Cols {
+				if c.Gen == nil && isNumTy(c.Type) && len(at.Checks) == len(t.Checks) {
+					e := "`" + c.Name + "` <> 4"
+					at.Checks = append(at.Checks, Check{Expr: e})
+					t.Checks = append(t.Checks, Check{Name: "ck_named", Expr: e})
+					ok = true
+					break
+				}
+			}
 		case "dup-check-expr":
 			at := a.table(t.Name)
 			for _, c := range at.Cols {
@@ -273,4 +291,4 @@ func (g *G) witness(class string) (Schema, Schema, bool) {
 	return Schema{}, Schema{}, false
 }
 
-var knownClasses = []string{"index-name-moves", "new-table-clash", "autoinc-change", "dup-check-expr", "two-unnamed-fks", "gen-col-name-prefix", "pk-order", "pk-desc", "raw-default-parens", "check-parens", "drop-inline-unique"}
+var knownClasses = []string{"check-name-change", "index-name-moves", "new-table-clash", "autoinc-change", "dup-check-expr", "two-unnamed-fks", "gen-col-name-prefix", "pk-order", "pk-desc", "raw-default-parens", "check-parens", "drop-inline-unique"}
